@@ -48,7 +48,19 @@ func responseFromExpr(r *expr.HTTPResponseExpr, bodies map[int][]*openapi.Schema
 		}
 		if len(cookies) == 1 {
 			for _, v := range cookies {
-				headers["Set-Cookie"] = v
+				// The value of the header is "name=value" followed by the
+				// cookie attributes: a string whatever the type and the
+				// validations of the attribute the cookie carries.
+				headers["Set-Cookie"] = &HeaderRef{
+					Value: &Header{
+						Description: v.Value.Description,
+						Required:    v.Value.Required,
+						Schema: &openapi.Schema{
+							Type: "string",
+						},
+						Extensions: v.Value.Extensions,
+					},
+				}
 			}
 		} else {
 			// Generic cookies header
